@@ -1335,5 +1335,11 @@ def r12_generated_rule_names(a, tier):
     return rep
 
 
+def r13_per_call_state(a, tier):
+    # a generated parser object IS the parsing context and lives across parse() calls; the model builds a fresh one per parse
+    from ..rules.common import per_call_state_ends_with_the_call
+    return per_call_state_ends_with_the_call(a, 'C02.R13')
+
+
 RULES = [r1_exhaustive, r2_primitives, r3_rule_transfer, r4_emission, r5_context_free_emission, r6_leaf_literals, r7_generated_configuration,
-         r8_operand_correspondence, r9_named_value, r10_generated_frames, r11_regexpp_literals, r12_generated_rule_names]
+         r8_operand_correspondence, r9_named_value, r10_generated_frames, r11_regexpp_literals, r12_generated_rule_names, r13_per_call_state]
